@@ -138,6 +138,18 @@ def _linalg_args(lem, rng):
             sel = gens.bits(rng, N + 1); sel[:m] = 0
             return {'sel': sel, 'G': gs, 'P': ps, 'm': m, 'N': N, 'c': int(rng.integers(0, 2 * N))}
         return {'c': gens.bits(rng, N - r + 1), 'gs': gs, 'ps': ps, 'r': r, 'N': N, 'n': n, 'col': int(rng.integers(0, 2 * N))}
+    if name == 'map_state_roundtrip':
+        N = int(rng.integers(0, 4))
+        M = gens.bits(rng, 2 * N, 2 * N); MP = rng.integers(0, 4, size=2 * N)
+        S = np.zeros_like(M); SP = np.zeros_like(MP)
+        for i in range(N):
+            S[i], S[N + i], SP[i], SP[N + i] = M[2 * i + 1], M[2 * i], MP[2 * i + 1], MP[2 * i]
+        M2 = np.zeros_like(M); MP2 = np.zeros_like(MP)
+        for i in range(N):
+            M2[2 * i + 1], M2[2 * i], MP2[2 * i + 1], MP2[2 * i] = S[i], S[N + i], SP[i], SP[N + i]
+        if rng.integers(0, 6) == 0 and N > 0:
+            M2[0, 0] ^= 1                               # sometimes not the conversion result: the requires filter it
+        return {'M': M, 'MP': MP, 'S': S, 'SP': SP, 'M2': M2, 'MP2': MP2, 'N': N}
     if name in ('rank_swap', 'rank_rowadd', 'rank_echelon'):
         nr, nc = int(rng.integers(1, 5)), int(rng.integers(1, 5))
         A = gens.bits(rng, nr, nc)
